@@ -11,15 +11,24 @@ type PRVWBox struct {
 	Height uint16
 }
 
+var (
+	errPRVWBoxDiscard    = errors.Wrap(errors.Wrap(ErrBufLength, "readPRVWBoxDiscard"), "ReadPRVWBox")
+	errPRVWBoxPeek       = errors.Wrap(errors.Wrap(ErrBufLength, "readPRVWBoxPeek"), "ReadPRVWBox")
+	errPreviewBoxPeek    = errors.Wrap(errors.Wrap(ErrBufLength, "parsePreviewBoxPeek"), "parsePreviewBox")
+	errPreviewBoxDiscard = errors.Wrap(errors.Wrap(ErrBufLength, "parsePreviewBoxDiscard"), "parsePreviewBox")
+)
+
 func (r *Reader) readPreview(b *box) (err error) {
+	// (the errors of a preview box that is too short are built once, see
+	// errReadFlags: a file may hold any number of such boxes)
 	inner, err := r.createPRVWBox(b)
 	if err != nil {
-		return errors.Wrapf(err, "ReadPRVWBox")
+		return err
 	}
 
 	r.prvw, err = parsePreviewBox(&inner)
 	if err != nil {
-		return errors.Wrapf(err, "parsePreviewBox")
+		return err
 	}
 
 	if r.PreviewImageReader != nil {
@@ -36,12 +45,12 @@ func (r *Reader) readPreview(b *box) (err error) {
 func (r *Reader) createPRVWBox(b *box) (inner box, err error) {
 	_, err = b.Discard(8)
 	if err != nil {
-		return inner, errors.Wrap(ErrBufLength, "readPRVWBoxDiscard")
+		return inner, errPRVWBoxDiscard
 	}
 
 	buf, err := b.Peek(8)
 	if err != nil {
-		return inner, errors.Wrap(ErrBufLength, "readPRVWBoxPeek")
+		return inner, errPRVWBoxPeek
 	}
 
 	inner.reader = b.reader
@@ -61,7 +70,7 @@ func parsePreviewBox(b *box) (prvw PRVWBox, err error) {
 
 	buf, err := b.Peek(24)
 	if err != nil {
-		return prvw, errors.Wrap(ErrBufLength, "parsePreviewBoxPeek")
+		return prvw, errPreviewBoxPeek
 	}
 
 	prvw.Width = bmffEndian.Uint16(buf[14:16])
@@ -70,7 +79,7 @@ func parsePreviewBox(b *box) (prvw PRVWBox, err error) {
 
 	_, err = b.Discard(24)
 	if err != nil {
-		return prvw, errors.Wrap(ErrBufLength, "parsePreviewBoxDiscard")
+		return prvw, errPreviewBoxDiscard
 	}
 
 	return prvw, nil
